@@ -364,8 +364,17 @@ func init() {
 				}
 				extra := build(w, app)
 				w.Check = func() {
-					info, _ := w.n.ApplicationInfo("app")
+					info, ierr := w.n.ApplicationInfo("app")
 					a1, a2 := w.memberAlive("m1"), w.memberAlive("m2")
+					if ierr != nil {
+						// unloaded: nothing of it may be left and its last run must have been closed properly
+						if a1 || a2 {
+							w.ex.Fail("unloaded-with-members-running", "the application is unloaded (%v) but members are alive: m1=%v m2=%v", ierr, a1, a2)
+						}
+						if len(app.terms) != app.starts {
+							w.ex.Fail("terminate-callback-count", "application is unloaded: Start ran %d times, Terminate %d times (%v)", app.starts, len(app.terms), app.terms)
+						}
+					}
 					if info.State == gen.ApplicationStateLoaded {
 						if a1 || a2 {
 							w.ex.Fail("member-left-running", "application is down (loaded) but members alive: m1=%v m2=%v", a1, a2)
@@ -435,6 +444,58 @@ func init() {
 			if app.starts != 1 {
 				w.ex.Fail("start-callback-count", "Start callback ran %d times", app.starts)
 			}
+		}
+	})
+	// the last two members die concurrently and the application is started again as soon as it is 'loaded'
+	for mname, mode := range modes {
+		mode := mode
+		race("race-die-die-restart-"+mname, mode, 2, 3, true, func(w *World, app *appB) func() {
+			var er error
+			restarted := false
+			w.ex.Thread("D1", func() { w.n.Send(w.pids["m1"], "fail") })
+			w.ex.Thread("D2", func() { w.n.Send(w.pids["m2"], "fail") })
+			w.ex.Thread("RS", func() {
+				vsched.Block(vsched.OpUser, 0, func() bool {
+					info, err := w.n.ApplicationInfo("app")
+					return err == nil && info.State == gen.ApplicationStateLoaded
+				})
+				er = w.n.ApplicationStart("app", gen.ApplicationOptions{})
+				restarted = true
+			})
+			return func() {
+				info, _ := w.n.ApplicationInfo("app")
+				if restarted && er == nil && info.State != gen.ApplicationStateRunning {
+					w.ex.Fail("restarted-run-ended-by-stale-termination", "the application was started again (nil) after both members had died; nothing happened to the new run, yet its state is %s, Terminate ran %d times for %d starts", info.State, len(app.terms), app.starts)
+				}
+				w.Out("restart=%v", er)
+			}
+		})
+	}
+	// unload against a stop in progress, a crash-triggered stop and a start
+	for mname, mode := range modes {
+		mode := mode
+		race("race-stop-unload-"+mname, mode, 2, 3, true, func(w *World, app *appB) func() {
+			var es, eu error
+			w.ex.Thread("ST", func() { es = w.n.ApplicationStop("app") })
+			w.ex.Thread("UL", func() { eu = w.n.ApplicationUnload("app") })
+			return func() { w.Out("stop=%v unload=%v", es, eu) }
+		})
+		race("race-crash-unload-"+mname, mode, 2, 3, true, func(w *World, app *appB) func() {
+			var eu error
+			w.ex.Thread("D1", func() { w.n.Send(w.pids["m1"], "fail") })
+			w.ex.Thread("UL", func() { eu = w.n.ApplicationUnload("app") })
+			return func() { w.Out("unload=%v", eu) }
+		})
+	}
+	race("race-start-unload", gen.ApplicationModeTemporary, 2, 3, false, func(w *World, app *appB) func() {
+		var es, eu error
+		w.ex.Thread("S1", func() { es = w.n.ApplicationStart("app", gen.ApplicationOptions{}) })
+		w.ex.Thread("UL", func() { eu = w.n.ApplicationUnload("app") })
+		return func() {
+			if es == nil && eu == nil {
+				w.ex.Fail("started-and-unloaded", "ApplicationStart and ApplicationUnload both succeeded")
+			}
+			w.Out("start=%v unload=%v", es, eu)
 		}
 	})
 	race("race-stop-stop", gen.ApplicationModeTemporary, 2, 3, true, func(w *World, app *appB) func() {
